@@ -798,7 +798,7 @@ def normalise_ids(c: Dict[str, Any], new_id: int) -> Dict[str, Any]:
     old = c.get("orig_id", c["id"])
     txt = json.dumps(c)
     txt = re.sub(r"(c13(?:local|pkg|host|backend)_)%d\b" % old, r"\g<1>%d" % new_id, txt)
-    txt = re.sub(r"(c13ins_)%d_" % old, r"\g<1>%d_" % new_id, txt)
+    txt = re.sub(r"(c13(?:ins|rel)_)%d_" % old, r"\g<1>%d_" % new_id, txt)
     d = json.loads(txt)
     d["id"] = new_id
     if d.get("name", "").startswith("c13p"):
